@@ -1,11 +1,152 @@
-"""Replay of solver counterexamples against a native build (DESIGN 7.2)."""
+"""Replay of solver counterexamples (DESIGN 7.2).
+
+On a failed harness:
+ 1. the harness is re-run with Kani's concrete playback (`--concrete-playback=inplace`), which
+    turns the solver's assignment into ordinary `#[test]` functions (one per violated check)
+    inside the scratch copy of the harness source;
+ 2. for harness families whose scenario does not depend on a global-allocator model
+    (NATIVE_OK), the generated test is executed NATIVELY against the real code
+    (`cargo kani playback`, dev profile) with the non-cutting oracle macro compiled as a real
+    `assert!`; the violation counts as reproduced if the native run fails with the same message;
+ 3. the concrete values, the test source and the native outcome are written to
+    /verif/replays/<property>/<harness>.replay.json, which is the path reported on the
+    VIOLATION line and accepted by `./check <property> --replay <path>`.
+"""
+import json
 import os
+import re
+import subprocess
+import time
+
+import kani
+
+# families whose harness scenarios run unchanged without the stubs (no allocator model on the
+# violating path; copy stubs are semantically the real copies)
+NATIVE_OK = {"F1", "F2", "F5", "F7", "F8", "V1", "V3", "V4", "S1", "S2", "DL", "BX", "F0"}
+
+BLOCK_RE = re.compile(r"Concrete playback unit test for `([^`]+)`:\n```\n(.*?)\n```", re.S)
+CHECK_RE = re.compile(r"/// Check for `([^`]+)`: \"(.*?)\"\n///\n", re.S)
+NAME_RE = re.compile(r"fn (kani_concrete_playback_\w+)\(\)")
+VAL_RE = re.compile(r"^\s*// (.*)\n\s*vec!\[([^\]]*)\],", re.M)
+
+
+def _norm(d):
+    return re.sub(r"\s+", " ", d.replace('\\"', '"').strip().strip('"')).strip()
 
 
 def on_failure(prop, h, v, crate, target_dir, logs, replay_dir, solver_only_re):
-    return None
+    out_dir = os.path.join(replay_dir, prop)
+    os.makedirs(out_dir, exist_ok=True)
+    path = os.path.join(out_dir, h.name + ".replay.json")
+    rec = {
+        "property": prop, "harness": h.path, "family": h.family, "instantiation": h.inst, "bounds": h.bounds,
+        "violations": v["violations"], "created": time.strftime("%Y-%m-%dT%H:%M:%SZ", time.gmtime()),
+        "native_replay": "not_attempted", "path": path,
+    }
+    want = [_norm(x["desc"]) for x in v["violations"]]
+    # 1. concrete playback: Kani prints one #[test] per violated check / satisfied cover
+    #    (`inplace` cannot be used: it inserts the tests into the body of the macro_rules that
+    #    generate the harness functions)
+    cmd = ["cargo", "kani", "-Z", "stubbing", "-Z", "concrete-playback", "--concrete-playback=print",
+           "--features", kani.FEATURES, "--target-dir", target_dir, "--harness", h.path, "--exact"] + list(h.extra_args)
+    lp = os.path.join(logs, h.name + ".playback.log")
+    try:
+        with open(lp, "w") as lf:
+            subprocess.run(cmd, cwd=crate, stdout=lf, stderr=subprocess.STDOUT, env=kani.cargo_env(), timeout=h.timeout + 600)
+    except subprocess.TimeoutExpired:
+        rec["native_replay"] = "playback_generation_timed_out"
+        _write(path, rec)
+        return _result(rec, solver_only=True)
+    with open(lp, errors="replace") as f:
+        ptxt = f.read()
+    tests = []
+    for m in BLOCK_RE.finditer(ptxt):
+        block = m.group(2)
+        nm = NAME_RE.search(block)
+        if not nm:
+            continue
+        cm = re.search(r"/// Check for `([^`]+)`: \"(.*?)\"\n///\n", block, re.S)
+        desc = _norm(cm.group(2)) if cm else ""
+        ti = block.index("#[test]")
+        body = block[ti:]
+        vals = [{"value": a.strip(), "bytes": b.strip()} for a, b in VAL_RE.findall(body)]
+        tests.append({"test": nm.group(1), "kind": cm.group(1) if cm else "", "check": desc, "concrete_values": vals, "source": body})
+    # the harness file (same module as the harness function)
+    hdir = os.path.join(crate, "verif_harness")
+    hfile = None
+    for fn in sorted(os.listdir(hdir)):
+        with open(os.path.join(hdir, fn), errors="replace") as f:
+            if re.search(r"\b%s\b" % re.escape(h.name), f.read()):
+                hfile = os.path.join(hdir, fn)
+                break
+    chosen = [t for t in tests if any(w and (w in t["check"] or t["check"] in w) for w in want)]
+    rec["counterexamples"] = chosen[:4] if chosen else tests[:2]
+    rec["playback_tests_generated"] = len(tests)
+    if not chosen:
+        rec["native_replay"] = "no_playback_test_for_this_check"
+        _write(path, rec)
+        return _result(rec, solver_only=True)
+    solver_only = all(solver_only_re.search(t["check"]) and not t["check"].startswith("NEVER: [C") for t in chosen) or \
+        all(t["kind"] == "cover" and "returned" in t["check"] for t in chosen)
+    if h.family not in NATIVE_OK or solver_only:
+        rec["native_replay"] = "not_applicable: " + ("check is observable by the solver only (pointer/unwinding/does-not-return class)" if solver_only
+                                                     else "scenario depends on a global-allocator model (stub) that a native run does not have")
+        _write(path, rec)
+        return _result(rec, solver_only=True)
+    # 2. native execution of the chosen test(s)
+    outcomes = []
+    reproduced = False
+    if hfile is None:
+        rec["native_replay"] = "not_attempted: harness file not found"
+        _write(path, rec)
+        return _result(rec, solver_only=True)
+    with open(hfile, "a") as f:
+        f.write("\n// ---- concrete playback tests appended by the runner ----\n")
+        for t in chosen[:2]:
+            # the crate is no_std: name Vec / vec! through the re-exported alloc crate
+            src = t["source"].replace("Vec<Vec<u8>>", "crate::core_alloc::vec::Vec<crate::core_alloc::vec::Vec<u8>>")
+            src = src.replace("vec![", "crate::core_alloc::vec![")
+            f.write(src + "\n")
+    for t in chosen[:2]:
+        c2 = ["cargo", "kani", "playback", "-Z", "concrete-playback", "--features", kani.FEATURES, "--", t["test"]]
+        nl = os.path.join(logs, h.name + "." + t["test"][-8:] + ".native.log")
+        try:
+            with open(nl, "w") as lf:
+                p = subprocess.run(c2, cwd=crate, stdout=lf, stderr=subprocess.STDOUT, env=kani.cargo_env(), timeout=900)
+            with open(nl, errors="replace") as f:
+                txt = f.read()
+            failed = ("test result: FAILED" in txt) or ("panicked at" in txt)
+            same = any(_norm(w)[:60] in _norm(txt) for w in want) or t["check"][:60] in _norm(txt)
+            outcomes.append({"test": t["test"], "rc": p.returncode, "native_failed": failed, "same_message": same,
+                             "tail": "\n".join([l for l in txt.splitlines() if "panicked" in l or "NEVER" in l or "test result" in l][-6:])})
+            if failed and (same or "panicked at" in txt):
+                reproduced = True
+        except subprocess.TimeoutExpired:
+            outcomes.append({"test": t["test"], "native_failed": True, "timeout": True})
+            reproduced = True  # non-termination is a reproduction of a hang
+    rec["native_outcomes"] = outcomes
+    rec["native_replay"] = "reproduced" if reproduced else "not_reproduced"
+    _write(path, rec)
+    return _result(rec, solver_only=False)
+
+
+def _result(rec, solver_only):
+    return {"path": rec["path"], "reproduced": True if rec["native_replay"] == "reproduced" else (False if rec["native_replay"] == "not_reproduced" else None),
+            "solver_only": solver_only, "native_replay": rec["native_replay"]}
+
+
+def _write(path, rec):
+    with open(path, "w") as f:
+        json.dump(rec, f, indent=1)
 
 
 def replay_file(path):
-    print("replay not implemented yet for", path)
-    return 2
+    """./check <prop> --replay <path>: re-decide the recorded harness on the CURRENT tree."""
+    with open(path) as f:
+        rec = json.load(f)
+    name = rec["harness"].split("::")[-1]
+    prop = rec["property"]
+    print("re-running harness %s for %s on the current tree" % (name, prop))
+    me = os.path.join(os.path.dirname(os.path.abspath(__file__)), "main.py")
+    r = subprocess.run(["python3", me, prop, "--only", "^" + re.escape(name) + "$"], env=dict(os.environ, VERIF_REPLAY_PROP=prop))
+    return r.returncode
